@@ -29,7 +29,8 @@ class GopherPlusProtocol(GopherProtocol):
         else:
             return False  # Too many params.
 
-        return (
+        # An empty last field is not a Gopher+ request.
+        return bool(self.gopherpstring) and (
             self.gopherpstring[0] == "+"
             or self.gopherpstring == "!"
             or self.gopherpstring[0] == "$"
